@@ -127,11 +127,13 @@ func (bq *Queue[Q]) Run() {
 				bq.relayF(b)
 			}
 			bq.queueLock.Lock()
-			bq.len--
-			l := bq.len
+			// The slot can be reused by a newer element already (and it's not
+			// counted as a new one in this case) or cleaned up above.
 			if bq.queue[pos] == b {
 				bq.queue[pos] = bq.nilQ
+				bq.len--
 			}
+			l := bq.len
 			bq.queueLock.Unlock()
 			if bq.lenUpdateF != nil {
 				bq.lenUpdateF(l)
